@@ -86,7 +86,7 @@ def run(ck):
     ck.rule("R3", "each back end re-checks code ranges after a memory-accessing instruction and leaves the block on a VM flag", floor=6)
     ck.rule("R4", "a translated block is registered and its address range pushed to the VM", floor=4)
     ck.rule("R5", "an EXCEPT_CODE_AUTOMOD handler drops the modified translations and clears the flag", floor=3)
-    ck.rule("R7", "the recorded write list is cleared only by code that has consumed it (get_memory_write) on every path to the reset", floor=2)
+    ck.rule("R7", "the recorded write list is cleared only by code that has consumed it (get_memory_write) on every path to the reset", floor=1)
     ck.rule("R6", "del_block_in_range removes translation and block entry of every overlapping block; ranges rebuilt", floor=6)
 
     # ------------------------------------------------------------------ R1
